@@ -179,6 +179,7 @@ def stage2(chk, insts, res):
                 emit(V(proof, s), 'accept_scratch_sweep_all_zero')
         if not t.full: continue
         if t.lite:
+            # heavy dimensions: one representative of each family (the complete families run on the lighter ones)
             off = 65 * nr
             if t.kind == 'rand':
                 emit(V(proof, need + 1 + r.below(100000)), 'accept_scratch_sufficient')
@@ -198,7 +199,7 @@ def stage2(chk, insts, res):
                 if t.kind == 'all_zero': emit(V(set_byte(proof, 65 * k, r.choice([1, 2, 3])), 1000000), 'reject_infinity_with_sign_bit')
             continue
         if t.kind == 'rand':
-            for s in [need + 1 + r.below(3000), need + 1, need + 3000 + r.below(100000)][:1 if t.lite else chk.scale(2, 3)]: emit(V(proof, s), 'accept_scratch_sufficient')
+            for s in [need + 1 + r.below(3000), need + 1, need + 3000 + r.below(100000)][:chk.scale(2, 3)]: emit(V(proof, s), 'accept_scratch_sufficient')
         for s in sorted(set([0, 1, 31, 32, need - 32, need // 2, max(0, need - 1 - r.below(need)), 32 * nr, 32 * (nr + a), 32 * (nr + a + b), 32 * (nr + a + b) - 1])):
             if 0 <= s < need: emit(V(proof, s), 'reject_scratch_insufficient')
         # --- lengths
@@ -209,13 +210,13 @@ def stage2(chk, insts, res):
         if nr: emit(V(proof[65:], 1000000), 'reject_first_round_dropped')
         # --- other public inputs
         emit(V(proof, 1000000, tr=t.tr + b'\x00'), 'reject_wrong_transcript' if nr else 'accept_transcript_unused_0_rounds')
-        few = chk.quick() or t.lite       # fewer of the variants that cost the model a full verification
+        few = chk.quick()       # fewer of the variants that cost the model a full verification
         emit(V(proof, 1000000, rho=(t.rho + 1) % N), 'reject_wrong_rho')
         emit(V(proof, 1000000, rho=0), 'reject_rho_zero_on_honest')
         emit(V(proof, 1000000, rho=N), 'reject_rho_zero_on_honest')
         C = (int(t.commit[:64], 16), int(t.commit[64:], 16)) if int(t.commit, 16) else None
         emit(V(proof, 1000000, commit=pk_obj(neg(C))), 'reject_negated_commit' if C else 'accept_infinity_commit')
-        if not t.lite: emit(V(proof, 1000000, commit=pk_obj(add(C, G))), 'reject_shifted_commit')
+        emit(V(proof, 1000000, commit=pk_obj(add(C, G))), 'reject_shifted_commit')
         emit(V(proof, 1000000, commit='00' * 64), 'reject_infinity_commit' if C else 'accept_infinity_commit')
         j = r.below(b); emit(V(proof, 1000000, cv=t.cv[:j] + [(t.cv[j] + 1) % N] + t.cv[j + 1:]), 'reject_wrong_c_vec' if t.kind != 'all_zero' else 'accept_c_vec_unused_l_zero')
         if a + b >= 2:
@@ -247,7 +248,7 @@ def stage2(chk, insts, res):
                 if w != v: emit(V(put(proof, o, b32(w)), 1000000), 'reject_scalar_ge_n' if w >= N else 'reject_scalar_changed')
         # --- points of each round
         kx = r.below(nr) if nr else 0
-        for k in (range(nr) if not t.lite else sorted(set([0, nr - 1]))):
+        for k in range(nr):
             o = 65 * k; sb = proof[o]
             for v in sorted(set([sb | 4, sb | 8, sb | 0x80, sb | 0xfc, 4, 255, sb + 4])): emit(V(set_byte(proof, o, v & 255), 1000000), 'reject_sign_byte_gt_3')
             xz, rz = proof[o + 1:o + 33] == bytes(32), proof[o + 33:o + 65] == bytes(32)
@@ -274,16 +275,20 @@ def stage2(chk, insts, res):
         if nr >= 2:
             emit(V(proof[65:130] + proof[:65] + proof[130:], 1000000), 'reject_rounds_swapped' if proof[:65] != proof[65:130] else 'accept_rounds_swapped_equal')
         # --- single-bit flips (uniform over the proof) and one per field
-        nflip = 1 if t.lite else (chk.scale(3, 12) if t.kind == 'rand' else chk.scale(1, 4))
+        nflip = chk.scale(3, 12) if t.kind == 'rand' else chk.scale(1, 4)
         for i in range(nflip): emit(V(flip_bit(proof, r.below(8 * len(proof))), 1000000), 'reject_bit_flip')
-        if (t.kind == 'rand' and not t.lite) or not chk.quick():
+        if t.kind == 'rand' or not chk.quick():
             emit(V(flip_bit(proof, 8 * off + r.below(256)), 1000000), 'reject_bit_flip_n')
             emit(V(flip_bit(proof, 8 * (off + 32) + r.below(256)), 1000000), 'reject_bit_flip_l')
     return cases
 
 def run(chk):
     impl, model, ie, me = runners(chk)
-    th = threading.Thread(target=chk.coq); th.start()
+    err = []
+    def coq_job():
+        try: chk.coq()
+        except BaseException as e: err.append(e)
+    th = threading.Thread(target=coq_job); th.start()      # proof obligations, concurrently with the case runs
     # generators from the MODEL (the reference); the same list is compared with C in gens_create cases
     ng = 32 if chk.quick() else 256
     g = vlib.run_cases(model, ['bppp_gens_create #%d' % ng], me, 1)[0].split(' ')
@@ -300,3 +305,4 @@ def run(chk):
     chk.extra['verifier_cases_accepted_by_both'] = sum(1 for x, y in zip(ri2, rm2) if x == '#1' and y == '#1')
     chk.extra['verifier_cases_rejected_by_both'] = sum(1 for x, y in zip(ri2, rm2) if x == '#0' and y == '#0')
     th.join()
+    if err: raise err[0]
